@@ -16,7 +16,7 @@ Definition segvis (x : segst) (s : nat) : list (nat * nat) :=
 Definition target (o : fop) : nat :=
   match o with
   | ColWrite s | BsuAppend s | SstWrite s | SstRename s | SfmTmpTrunc s | SfmTmpWrite s _
-  | SfmRename s | SfmTruncate s | SfmWriteInPlace s _ | SegmetaAppend s | PqmrWrite s => s
+  | SfmRename s | SfmTruncate s | SfmWriteInPlace s _ | SfmUnlink s | SegmetaAppend s | PqmrWrite s => s
   end.
 
 Definition sstep (x : segst) (o : fop) : segst :=
@@ -28,6 +28,7 @@ Definition sstep (x : segst) (o : fop) : segst :=
   | SfmRename _ => {| bsu := bsu x; sfm := tmp x; tmp := NoFile |}
   | SfmTruncate _ => {| bsu := bsu x; sfm := Invalid; tmp := tmp x |}
   | SfmWriteInPlace _ nb => {| bsu := bsu x; sfm := Valid nb; tmp := tmp x |}
+  | SfmUnlink _ => {| bsu := bsu x; sfm := NoFile; tmp := tmp x |}
   end.
 
 Lemma segst_eta x : {| bsu := bsu x; sfm := sfm x; tmp := tmp x |} = x.
@@ -174,102 +175,160 @@ Proof. reflexivity. Qed.
 Lemma seq_snoc b : seq 0 (S b) = seq 0 b ++ [b].
 Proof. rewrite seq_S. reflexivity. Qed.
 
+(* ---------- one whole step, cut anywhere ---------- *)
+Lemma firstn_0 {A} (l : list A) : firstn 0 l = [].
+Proof. reflexivity. Qed.
+
+Lemma run_nil f : run f [] = f.
+Proof. reflexivity. Qed.
+
+(* the buffer flush of block b of segment s, first k calls *)
+Lemma flush_step f s b m n0 k n :
+  Inv f s b -> s < n ->
+  visible (run f (firstn k (flush_ops sfm_ops s b m n0))) n =
+    visible f n ++ (if Nat.leb (m + n0 + 5) k then [(s, b)]
+                    else if Nat.ltb m k && negb (Nat.eqb b 0) then [(s, b)] else []) /\
+  (m + n0 + 5 <= k -> Inv (run f (firstn k (flush_ops sfm_ops s b m n0))) s (S b)).
+Proof.
+  intros (Hlater & Hb & Hb0 & Hbpos) Hn.
+  assert (Hlv : forall t, s < t -> segvis (f t) t = []) by (intros t Ht; rewrite Hlater by exact Ht; reflexivity).
+  pose proof (flush_ops_target s b m n0) as HT.
+  set (f1 := run f (firstn k (flush_ops sfm_ops s b m n0))).
+  assert (Ho : forall t, t <> s -> f1 t = f t).
+  { intros t Ht. unfold f1. apply (run_other _ _ s); auto using Forall_firstn. }
+  assert (Hs1 : f1 s = fold_left sstep (firstn k (flush_ops sfm_ops s b m n0)) (f s)).
+  { unfold f1. apply run_same. auto using Forall_firstn. }
+  destruct (flush_prefix_seg (f s) s b m n0 k) as (P1 & P2 & P3). rewrite <- Hs1 in P1, P2, P3.
+  split.
+  - apply (visible_change_one f f1 s n); auto; try lia.
+    destruct (Nat.leb_spec (m + n0 + 5) k) as [Hfull|Hpart].
+    + destruct (P3 Hfull) as (B1 & S1 & T1).
+      unfold segvis. rewrite S1, B1, Hb, seq_snoc, map_app. cbn [map].
+      destruct b as [|b'].
+      * rewrite Hb0 by reflexivity. reflexivity.
+      * destruct (Hbpos ltac:(lia)) as [nb ->]. reflexivity.
+    + destruct (Nat.ltb_spec m k) as [Hmk|Hmk]; cbn [andb].
+      * destruct (P2 Hmk Hpart) as (B1 & S1).
+        unfold segvis. rewrite S1, B1, Hb.
+        destruct b as [|b'].
+        -- cbn [Nat.eqb negb]. rewrite Hb0 by reflexivity. reflexivity.
+        -- cbn [Nat.eqb negb]. destruct (Hbpos ltac:(lia)) as [nb ->].
+           rewrite seq_snoc, map_app. reflexivity.
+      * rewrite (P1 ltac:(lia)), app_nil_r. reflexivity.
+  - intros Hfull. destruct (P3 Hfull) as (B1 & S1 & T1). repeat split.
+    + intros t Ht. rewrite Ho by lia. apply Hlater. exact Ht.
+    + rewrite B1, Hb. reflexivity.
+    + intros; lia.
+    + intros _. eauto.
+Qed.
+
+(* appends to the pqmr files change nothing start-up looks at *)
+Lemma pq_step f s b p k n :
+  Inv f s b ->
+  visible (run f (firstn k (repeat (PqmrWrite s) p))) n = visible f n /\
+  Inv (run f (firstn k (repeat (PqmrWrite s) p))) s b.
+Proof.
+  intros (Hlater & Hb & Hb0 & Hbpos). rewrite firstn_repeat.
+  set (f1 := run f (repeat (PqmrWrite s) (Nat.min k p))).
+  assert (HT : Forall (fun o => target o = s) (repeat (PqmrWrite s) (Nat.min k p))).
+  { apply Forall_forall. intros o Ho. apply repeat_spec in Ho. subst. reflexivity. }
+  assert (Hall : forall t, f1 t = f t).
+  { intros t. destruct (Nat.eq_dec t s) as [->|Ht].
+    - unfold f1. rewrite (run_same _ _ s HT). apply fold_repeat_pq.
+    - unfold f1. apply (run_other _ _ s); auto. }
+  split.
+  - rewrite !visible_unfold. apply flat_map_seq_ext. intros t _. rewrite Hall. reflexivity.
+  - repeat split.
+    + intros t Ht. rewrite Hall. apply Hlater. exact Ht.
+    + rewrite Hall. exact Hb.
+    + intros E. rewrite Hall. apply Hb0. exact E.
+    + intros E. rewrite Hall. apply Hbpos. exact E.
+Qed.
+
+(* the rotation of segment s (final .sfm through tmp + rename, segmeta.json line), first k calls: what is visible never
+   changes; after all four calls the writer is at the next, empty segment *)
+Lemma rotate_step f s b' k n :
+  Inv f s (S b') -> s < n ->
+  visible (run f (firstn k (rotate_ops sfm_ops s (S b')))) n = visible f n /\
+  (4 <= k -> Inv (run f (firstn k (rotate_ops sfm_ops s (S b')))) (S s) 0).
+Proof.
+  intros (Hlater & Hb & Hb0 & Hbpos) Hn.
+  assert (Hlv : forall t, s < t -> segvis (f t) t = []) by (intros t Ht; rewrite Hlater by exact Ht; reflexivity).
+  destruct (Hbpos ltac:(lia)) as [nb0 Hv].
+  pose proof (rotate_ops_target s (S b')) as HT.
+  set (f1 := run f (firstn k (rotate_ops sfm_ops s (S b')))).
+  assert (Ho : forall t, t <> s -> f1 t = f t).
+  { intros t Ht. unfold f1. apply (run_other _ _ s); auto using Forall_firstn. }
+  assert (Hs1 : f1 s = fold_left sstep (firstn k (rotate_ops sfm_ops s (S b'))) (f s)).
+  { unfold f1. apply run_same. auto using Forall_firstn. }
+  destruct (rotate_prefix_seg (f s) s (S b') k nb0 Hv) as (B1 & (nb1 & S1) & T1). rewrite <- Hs1 in B1, S1, T1.
+  split.
+  - rewrite <- (app_nil_r (visible f n)). apply (visible_change_one f f1 s n); auto; try lia.
+    unfold segvis. rewrite S1, B1, Hv, app_nil_r. reflexivity.
+  - intros Hfull. repeat split.
+    + intros t Ht. rewrite Ho by lia. apply Hlater. lia.
+    + rewrite Ho by lia. rewrite Hlater by lia. reflexivity.
+    + intros _. rewrite Ho by lia. rewrite Hlater by lia. reflexivity.
+    + intros; lia.
+Qed.
+
 Theorem crash_visible_from h : forall s b f k n,
   Inv f s b -> s + length h < n ->
   visible (run f (firstn k (ops_from sfm_ops s b h))) n = visible f n ++ expect_from s b h k.
 Proof.
   induction h as [|st h IH]; intros s b f k n HI Hn.
   - cbn [ops_from expect_from]. rewrite firstn_nil, app_nil_r. reflexivity.
-  - destruct HI as (Hlater & Hb & Hb0 & Hbpos). cbn [length] in Hn.
-    assert (Hlv : forall t, s < t -> segvis (f t) t = []) by (intros t Ht; rewrite Hlater by exact Ht; reflexivity).
-    destruct st as [m n0| |p].
+  - cbn [length] in Hn.
+    destruct st as [m n0| |p|m n0 p].
     + (* Flush *)
       cbn [ops_from expect_from].
-      pose proof (flush_ops_target s b m n0) as HT.
       pose proof (flush_ops_length s b m n0) as HL.
       rewrite firstn_app, run_app, HL.
-      set (f1 := run f (firstn k (flush_ops sfm_ops s b m n0))).
-      assert (Ho : forall t, t <> s -> f1 t = f t).
-      { intros t Ht. unfold f1. apply (run_other _ _ s); auto using Forall_firstn. }
-      assert (Hs1 : f1 s = fold_left sstep (firstn k (flush_ops sfm_ops s b m n0)) (f s)).
-      { unfold f1. apply run_same. auto using Forall_firstn. }
-      destruct (flush_prefix_seg (f s) s b m n0 k) as (P1 & P2 & P3). rewrite <- Hs1 in P1, P2, P3.
+      destruct (flush_step f s b m n0 k n HI ltac:(lia)) as (Hv1 & HI1).
       destruct (Nat.leb_spec (m + n0 + 5) k) as [Hfull|Hpart].
-      * (* the flush completed *)
-        destruct (P3 Hfull) as (B1 & S1 & T1).
-        assert (HI1 : Inv f1 s (S b)).
-        { repeat split.
-          - intros t Ht. rewrite Ho by lia. apply Hlater. exact Ht.
-          - rewrite B1, Hb. reflexivity.
-          - intros; lia.
-          - intros _. eauto. }
-        rewrite (IH s (S b) f1 (k - (m + n0 + 5)) n HI1) by lia.
-        assert (Hv1 : visible f1 n = visible f n ++ [(s, b)]).
-        { apply (visible_change_one f f1 s n); auto; try lia.
-          unfold segvis. rewrite S1, B1, Hb, seq_snoc, map_app. cbn [map].
-          destruct b as [|b'].
-          - rewrite Hb0 by reflexivity. reflexivity.
-          - destruct (Hbpos ltac:(lia)) as [nb ->]. reflexivity. }
+      * rewrite (IH s (S b) _ (k - (m + n0 + 5)) n (HI1 Hfull)) by lia.
         rewrite Hv1, <- app_assoc. reflexivity.
-      * (* crash inside the flush *)
-        replace (k - (m + n0 + 5)) with 0 by lia. cbn [firstn]. unfold run at 1. cbn [fold_left].
-        apply (visible_change_one f f1 s n); auto; try lia.
-        destruct (Nat.ltb_spec m k) as [Hmk|Hmk]; cbn [andb].
-        -- destruct (P2 Hmk Hpart) as (B1 & S1).
-           unfold segvis. rewrite S1, B1, Hb.
-           destruct b as [|b'].
-           ++ cbn [Nat.eqb negb]. rewrite Hb0 by reflexivity. reflexivity.
-           ++ cbn [Nat.eqb negb]. destruct (Hbpos ltac:(lia)) as [nb ->].
-              rewrite seq_snoc, map_app. reflexivity.
-        -- rewrite (P1 ltac:(lia)), app_nil_r. reflexivity.
+      * replace (k - (m + n0 + 5)) with 0 by lia. rewrite firstn_0, run_nil. exact Hv1.
     + (* Rotate *)
       cbn [ops_from expect_from]. destruct b as [|b'].
-      * apply IH; [|lia]. repeat split; auto.
-      * destruct (Hbpos ltac:(lia)) as [nb0 Hv].
-        pose proof (rotate_ops_target s (S b')) as HT.
-        assert (HL : length (rotate_ops sfm_ops s (S b')) = 4) by reflexivity.
+      * apply IH; [exact HI|lia].
+      * assert (HL : length (rotate_ops sfm_ops s (S b')) = 4) by reflexivity.
         rewrite firstn_app, run_app, HL.
-        set (f1 := run f (firstn k (rotate_ops sfm_ops s (S b')))).
-        assert (Ho : forall t, t <> s -> f1 t = f t).
-        { intros t Ht. unfold f1. apply (run_other _ _ s); auto using Forall_firstn. }
-        assert (Hs1 : f1 s = fold_left sstep (firstn k (rotate_ops sfm_ops s (S b'))) (f s)).
-        { unfold f1. apply run_same. auto using Forall_firstn. }
-        destruct (rotate_prefix_seg (f s) s (S b') k nb0 Hv) as (B1 & (nb1 & S1) & T1). rewrite <- Hs1 in B1, S1, T1.
-        assert (Hv1 : visible f1 n = visible f n).
-        { rewrite <- (app_nil_r (visible f n)). apply (visible_change_one f f1 s n); auto; try lia.
-          unfold segvis. rewrite S1, B1, Hv, app_nil_r. reflexivity. }
+        destruct (rotate_step f s b' k n HI ltac:(lia)) as (Hv1 & HI1).
         destruct (Nat.leb_spec 4 k) as [Hfull|Hpart].
-        -- assert (HI1 : Inv f1 (S s) 0).
-           { repeat split.
-             - intros t Ht. rewrite Ho by lia. apply Hlater. lia.
-             - rewrite Ho by lia. rewrite Hlater by lia. reflexivity.
-             - intros _. rewrite Ho by lia. rewrite Hlater by lia. reflexivity.
-             - intros; lia. }
-           rewrite (IH (S s) 0 f1 (k - 4) n HI1) by lia. rewrite Hv1. reflexivity.
-        -- replace (k - 4) with 0 by lia. cbn [firstn]. unfold run at 1. cbn [fold_left].
-           rewrite Hv1, app_nil_r. reflexivity.
-    + (* PqWrites: appends to the pqmr files change nothing start-up looks at *)
+        -- rewrite (IH (S s) 0 _ (k - 4) n (HI1 Hfull)) by lia. rewrite Hv1. reflexivity.
+        -- replace (k - 4) with 0 by lia. rewrite firstn_0, run_nil, Hv1, app_nil_r. reflexivity.
+    + (* PqWrites *)
       cbn [ops_from expect_from].
-      rewrite firstn_app, run_app, repeat_length, firstn_repeat.
-      set (f1 := run f (repeat (PqmrWrite s) (Nat.min k p))).
-      assert (HT : Forall (fun o => target o = s) (repeat (PqmrWrite s) (Nat.min k p))).
-      { apply Forall_forall. intros o Ho. apply repeat_spec in Ho. subst. reflexivity. }
-      assert (Hall : forall t, f1 t = f t).
-      { intros t. destruct (Nat.eq_dec t s) as [->|Ht].
-        - unfold f1. rewrite (run_same _ _ s HT). apply fold_repeat_pq.
-        - unfold f1. apply (run_other _ _ s); auto. }
-      assert (Hv1 : visible f1 n = visible f n).
-      { rewrite !visible_unfold. apply flat_map_seq_ext. intros t _. rewrite Hall. reflexivity. }
+      rewrite firstn_app, run_app, repeat_length.
+      destruct (pq_step f s b p k n HI) as (Hv1 & HI1).
       destruct (Nat.leb_spec p k) as [Hfull|Hpart].
-      * assert (HI1 : Inv f1 s b).
-        { repeat split.
-          - intros t Ht. rewrite Hall. apply Hlater. exact Ht.
-          - rewrite Hall. exact Hb.
-          - intros E. rewrite Hall. apply Hb0. exact E.
-          - intros E. rewrite Hall. apply Hbpos. exact E. }
-        rewrite (IH s b f1 (k - p) n HI1) by lia. rewrite Hv1. reflexivity.
-      * replace (k - p) with 0 by lia. cbn [firstn]. unfold run at 1. cbn [fold_left].
-        rewrite Hv1, app_nil_r. reflexivity.
+      * rewrite (IH s b _ (k - p) n HI1) by lia. rewrite Hv1. reflexivity.
+      * replace (k - p) with 0 by lia. rewrite firstn_0, run_nil, Hv1, app_nil_r. reflexivity.
+    + (* ForcedFlush: the buffer flush, the pqmr appends and the rotation in one call *)
+      cbn [ops_from expect_from].
+      pose proof (flush_ops_length s b m n0) as HL.
+      rewrite firstn_app, run_app, HL.
+      destruct (flush_step f s b m n0 k n HI ltac:(lia)) as (Hv1 & HI1).
+      set (f1 := run f (firstn k (flush_ops sfm_ops s b m n0))) in *.
+      destruct (Nat.leb_spec (m + n0 + 5) k) as [Hfull|Hpart].
+      * specialize (HI1 Hfull).
+        set (k1 := k - (m + n0 + 5)).
+        rewrite firstn_app, run_app, repeat_length.
+        destruct (pq_step f1 s (S b) p k1 n HI1) as (Hv2 & HI2).
+        set (f2 := run f1 (firstn k1 (repeat (PqmrWrite s) p))) in *.
+        assert (HLr : length (rotate_ops sfm_ops s (S b)) = 4) by reflexivity.
+        rewrite firstn_app, run_app, HLr.
+        destruct (rotate_step f2 s b (k1 - p) n HI2 ltac:(lia)) as (Hv3 & HI3).
+        set (f3 := run f2 (firstn (k1 - p) (rotate_ops sfm_ops s (S b)))) in *.
+        destruct (Nat.leb_spec (m + n0 + 5 + p + 4) k) as [Hall|Hrot].
+        -- assert (H4 : 4 <= k1 - p) by (unfold k1; lia).
+           replace (k - (m + n0 + 5 + p + 4)) with (k1 - p - 4) by (unfold k1; lia).
+           rewrite (IH (S s) 0 f3 (k1 - p - 4) n (HI3 H4)) by lia.
+           rewrite Hv3, Hv2, Hv1, <- app_assoc. reflexivity.
+        -- replace (k1 - p - 4) with 0 by (unfold k1; lia).
+           rewrite firstn_0, run_nil, Hv3, Hv2, Hv1. reflexivity.
+      * replace (k - (m + n0 + 5)) with 0 by lia. rewrite firstn_0, run_nil. exact Hv1.
 Qed.
 
 Lemma Inv_init : Inv fs0 0 0.
@@ -294,13 +353,18 @@ Lemma expect_completed h : forall s b k,
 Proof.
   induction h as [|st h IH]; intros s b k; cbn [expect_from completed_from].
   - exists []. split; auto.
-  - destruct st as [m n| |p].
+  - destruct st as [m n| |p|m n p].
     + destruct (Nat.leb (m + n + 5) k).
       * destruct (IH s (S b) (k - (m + n + 5))) as (e & E & L). exists e. rewrite E. split; auto.
       * destruct (Nat.ltb m k && negb (Nat.eqb b 0)); [exists [(s, b)]|exists []]; split; cbn; auto.
     + destruct b as [|b']; [apply IH|].
       destruct (Nat.leb 4 k); [apply IH|]. exists []. split; auto.
     + destruct (Nat.leb p k); [apply IH|]. exists []. split; auto.
+    + destruct (Nat.leb (m + n + 5) k).
+      * destruct (Nat.leb (m + n + 5 + p + 4) k).
+        -- destruct (IH (S s) 0 (k - (m + n + 5 + p + 4))) as (e & E & L). exists e. rewrite E. split; auto.
+        -- exists []. split; auto.
+      * destruct (Nat.ltb m k && negb (Nat.eqb b 0)); [exists [(s, b)]|exists []]; split; cbn; auto.
 Qed.
 
 (* all blocks named are distinct and in ingest order: (s,b) strictly increasing lexicographically *)
@@ -309,7 +373,7 @@ Definition blt (x y : nat * nat) : Prop := fst x < fst y \/ (fst x = fst y /\ sn
 Lemma expect_lower h : forall s b k x, In x (expect_from s b h k) -> (s, b) = x \/ blt (s, b) x.
 Proof.
   induction h as [|st h IH]; intros s b k x; cbn [expect_from]; [intros []|].
-  destruct st as [m n| |p].
+  destruct st as [m n| |p|m n p].
   - destruct (Nat.leb (m + n + 5) k).
     + intros [<-|H]; [left; reflexivity|]. right. apply IH in H as [<-|H]; unfold blt in *; cbn in *; lia.
     + destruct (Nat.ltb m k && negb (Nat.eqb b 0)); [intros [<-|[]]; left; reflexivity|intros []].
@@ -317,12 +381,17 @@ Proof.
     destruct (Nat.leb 4 k); [|intros []].
     intros H. right. apply IH in H as [<-|H]; unfold blt in *; cbn in *; lia.
   - destruct (Nat.leb p k); [apply IH|intros []].
+  - destruct (Nat.leb (m + n + 5) k).
+    + intros [<-|H]; [left; reflexivity|]. right.
+      destruct (Nat.leb (m + n + 5 + p + 4) k); [|destruct H].
+      apply IH in H as [<-|H]; unfold blt in *; cbn in *; lia.
+    + destruct (Nat.ltb m k && negb (Nat.eqb b 0)); [intros [<-|[]]; left; reflexivity|intros []].
 Qed.
 
 Lemma expect_nodup h : forall s b k, NoDup (expect_from s b h k).
 Proof.
   induction h as [|st h IH]; intros s b k; cbn [expect_from]; [constructor|].
-  destruct st as [m n| |p].
+  destruct st as [m n| |p|m n p].
   - destruct (Nat.leb (m + n + 5) k).
     + constructor; [|apply IH]. intro H. apply expect_lower in H as [H|H].
       * injection H. lia.
@@ -330,6 +399,13 @@ Proof.
     + destruct (Nat.ltb m k && negb (Nat.eqb b 0)); repeat constructor. intros [].
   - destruct b as [|b']; [apply IH|]. destruct (Nat.leb 4 k); [apply IH|constructor].
   - destruct (Nat.leb p k); [apply IH|constructor].
+  - destruct (Nat.leb (m + n + 5) k).
+    + destruct (Nat.leb (m + n + 5 + p + 4) k).
+      * constructor; [|apply IH]. intro H. apply expect_lower in H as [H|H].
+        -- injection H. lia.
+        -- unfold blt in H. cbn in H. lia.
+      * repeat constructor. intros [].
+    + destruct (Nat.ltb m k && negb (Nat.eqb b 0)); repeat constructor. intros [].
 Qed.
 
 Theorem crash_safe h k :
@@ -354,4 +430,73 @@ Proof.
   cbv zeta. split.
   - vm_compute. left. reflexivity.
   - vm_compute. intros [].
+Qed.
+
+(* ---------- forced rotation (graceful shutdown) ---------- *)
+(* What the general theorem says about the window the shutdown opens: once the buffer flush of the shutdown has returned
+   (its .sfm is renamed), the block is searchable after a crash at EVERY later call - the pqmr appends, each of the three
+   calls of the final .sfm, the segmeta.json line - whatever came before and whatever follows. *)
+Lemma completed_from_In_expect h : forall s b k x, In x (completed_from s b h k) -> In x (expect_from s b h k).
+Proof.
+  intros s b k x H. destruct (expect_completed h s b k) as (e & E & _). rewrite E. apply in_or_app. left. exact H.
+Qed.
+
+Lemma completed_from_app h1 : forall s b h2 k x,
+  length (ops_from sfm_ops s b h1) <= k ->
+  In x (completed_from (fst (pos_from s b h1)) (snd (pos_from s b h1)) h2 (k - length (ops_from sfm_ops s b h1))) ->
+  In x (completed_from s b (h1 ++ h2) k).
+Proof.
+  induction h1 as [|st h1 IH]; intros s b h2 k x Hk Hx.
+  - cbn [ops_from length app pos_from fst snd] in *. rewrite Nat.sub_0_r in Hx. exact Hx.
+  - destruct st as [m n| |p|m n p]; cbn [ops_from app completed_from pos_from] in *.
+    + rewrite app_length, flush_ops_length in Hk, Hx.
+      destruct (Nat.leb_spec (m + n + 5) k); [|lia]. right. apply IH; [lia|].
+      replace (k - (m + n + 5) - length (ops_from sfm_ops s (S b) h1)) with (k - (m + n + 5 + length (ops_from sfm_ops s (S b) h1))) by lia.
+      exact Hx.
+    + destruct b as [|b'0]; [apply IH; assumption|].
+      rewrite app_length in Hk, Hx. change (length (rotate_ops sfm_ops s (S b'0))) with 4 in Hk, Hx.
+      destruct (Nat.leb_spec 4 k); [|lia]. apply IH; [lia|].
+      replace (k - 4 - length (ops_from sfm_ops (S s) 0 h1)) with (k - (4 + length (ops_from sfm_ops (S s) 0 h1))) by lia.
+      exact Hx.
+    + rewrite app_length, repeat_length in Hk, Hx.
+      destruct (Nat.leb_spec p k); [|lia]. apply IH; [lia|].
+      replace (k - p - length (ops_from sfm_ops s b h1)) with (k - (p + length (ops_from sfm_ops s b h1))) by lia.
+      exact Hx.
+    + rewrite !app_length, flush_ops_length, repeat_length in Hk, Hx.
+      change (length (rotate_ops sfm_ops s (S b))) with 4 in Hk, Hx.
+      destruct (Nat.leb_spec (m + n + 5) k); [|lia]. right.
+      destruct (Nat.leb_spec (m + n + 5 + p + 4) k); [|lia]. apply IH; [lia|].
+      replace (k - (m + n + 5 + p + 4) - length (ops_from sfm_ops (S s) 0 h1))
+        with (k - (m + n + 5 + (p + (4 + length (ops_from sfm_ops (S s) 0 h1))))) by lia.
+      exact Hx.
+Qed.
+
+Theorem forced_rotation_keeps_shutdown_flush h1 m n p h2 k :
+  length (ops_of h1) + (m + n + 5) <= k ->
+  let h := h1 ++ ForcedFlush m n p :: h2 in
+  In (pos_after h1) (visible (run fs0 (firstn k (ops_of h))) (nsegs h)).
+Proof.
+  intros Hk. cbv zeta. rewrite crash_visible_exact. unfold expect_visible, ops_of, pos_after in *.
+  apply completed_from_In_expect. apply completed_from_app; [lia|].
+  cbn [completed_from]. destruct (Nat.leb_spec (m + n + 5) (k - length (ops_from sfm_ops 0 0 h1))); [|lia].
+  left. destruct (pos_from 0 0 h1); reflexivity.
+Qed.
+
+(* The shutdown flush that leaves the running .sfm to the rotation: all files of the flush are on disk after m + n + 2
+   calls (the flush has returned, the rotation is under way), and until the final .sfm is renamed a crash loses the
+   block - here the only flush of the segment, so the whole segment is never adopted. *)
+Theorem forced_rotation_skip_running_sfm_refuted :
+  let h := [ForcedFlush 1 1 0] in
+  let ops := forced_ops_skip_running_sfm 0 0 1 1 0 in
+  length ops = 8 /\
+  (forall k, 4 <= k -> k < 7 -> visible (run fs0 (firstn k ops)) (nsegs h) = []) /\
+  visible (run fs0 ops) (nsegs h) = [(0, 0)] /\
+  (forall k, 7 <= k -> visible (run fs0 (firstn k (ops_of h))) (nsegs h) = [(0, 0)]).
+Proof.
+  cbv zeta. split; [reflexivity|]. split; [|split].
+  - intros k H1 H2. assert (E : k = 4 \/ k = 5 \/ k = 6) by lia. destruct E as [->|[->| ->]]; reflexivity.
+  - reflexivity.
+  - intros k Hk. rewrite crash_visible_exact. unfold expect_visible. cbn [expect_from].
+    destruct (Nat.leb_spec (1 + 1 + 5) k); [|lia].
+    destruct (Nat.leb (1 + 1 + 5 + 0 + 4) k); reflexivity.
 Qed.
